@@ -426,6 +426,12 @@ def run_history(ops, final, rows, weighting, cw):
                         cal.weighting = weighting
                     else:
                         cal.update_linreg()
+                if any(op[0] == "roundtrip" for op in ops):
+                    # to_array / from_array are not what is judged: go on only if the object that came back holds the
+                    # case's tables
+                    if cal.weighting != weighting or not np.array_equal(cal.points, np_points(rows), equal_nan=True) or \
+                            (cw is not None and not np.array_equal(cal.weights, np_weights(weighting, cw)[1], equal_nan=True)):
+                        return None
                 cal.update_linreg()
                 return observe(cal)
             except Exception as e:
@@ -658,7 +664,7 @@ def judge_calibrate(impl, model, spec, shape, resp, g, c):
 # computes over Rat from the exact value the dtype holds ("c06.calibrate_data").
 INT_DTYPES = ["i1", "i2", "i4", "i8", "u1", "u2", "u4", "u8"]
 DATA_DTYPES = INT_DTYPES + ["f4", "f8"]
-LAYOUTS = ["c", "f", "strided", "reversed", "transposed", "field", "readonly", "offset", "scalar"]
+LAYOUTS = ["c", "f", "strided", "reversed", "transposed", "field", "readonly", "offset", "scalar", "pyscalar"]
 F4_MAX = 1e30   # binary32 arithmetic is judged only where nothing can overflow: |g|, |c|, |r|, |x| <= 1e30, |g| >= 1e-30
 
 
@@ -720,6 +726,8 @@ def lay_out(a, layout):
         return v
     if layout == "scalar" and a.ndim == 0:  # what indexing an image returns: a NumPy scalar, not an array
         return a[()]
+    if layout == "pyscalar" and a.ndim == 0:  # ... and what `.item()` / `float()` of it returns: a Python number
+        return a.item()
     return a.copy(order="C")
 
 
@@ -736,7 +744,8 @@ def build_data(case):
     vals = dtype_values(data, dt)
     a = np.array(vals, dtype=dt).reshape(shape)
     arg = lay_out(a, layout)
-    same_dtype = np.asarray(arg).dtype == dt or (layout == "scalar" and np.asarray(arg).dtype == dt.newbyteorder("="))
+    same_dtype = np.asarray(arg).dtype == dt or (layout == "scalar" and np.asarray(arg).dtype == dt.newbyteorder("=")) \
+        or (layout == "pyscalar" and not shape)
     if np.shape(arg) != tuple(shape) or not same_dtype or not np.array_equal(np.asarray(arg), a, equal_nan=True):
         raise core.InternalError(f"layout {layout} changed the array")
     exact = vals if dt.kind in "iu" else a.ravel().astype(np.float64).tolist()
@@ -802,6 +811,9 @@ def judge_data(impl, model, spec, shape, g, c, dt, identity):
 
 
 def data_features(dt, layout, shape, exact):
+    if (layout in ("scalar", "pyscalar") and shape) or (layout == "reversed" and not shape) or \
+            (layout in ("transposed", "f") and len(shape) < 2):
+        layout = "c"  # what `lay_out` falls back to
     f = {"data-dtype:" + dt.base.str[1:], "data-layout:" + layout, f"ndim{len(shape)}",
          "data-byteorder:" + ("single-byte" if dt.itemsize == 1 else "big" if dt.str[0] == ">" else "little")}
     f.add("data:integer-counts" if dt.kind in "iu" else "data:binary32" if dt.itemsize == 4 else "data:binary64")
@@ -916,7 +928,7 @@ class C06(Prop):
         mode = rng.choice(["ladder"] * 8 + ["few", "same", "zeros", "close", "close", "two-level"])
         n = rng.choice([2, 2, 3, 3, 4, 4, 5, 5, 6, 7, 8] + ([10, 12] if big else []))
         if rng.random() < 0.03:  # a long table (replicates of every level, a whole plate of standards)
-            n = rng.choice([20, 50, 200] + ([600] if big else []))
+            n = rng.choice([20, 30, 50] + ([100] if big else []))  # exact sums over 1/y^2 weights: ~1 s per evaluation at 100 rows
         if unit:
             scale, mode = rng.choice(TRACE_SCALES), "ladder"
         if mode == "few":
@@ -1007,7 +1019,7 @@ class C06(Prop):
         elif m <= (5 if big else 4):
             perms = [list(p) for p in itertools.permutations(range(m))][1:]
         else:
-            perms = [list(reversed(range(m)))] + [rng.sample(range(m), m) for _ in range(3 if not big else 5)]
+            perms = [list(reversed(range(m)))] + [rng.sample(range(m), m) for _ in range(1 if m >= 20 else 3 if not big else 5)]
         return {"kind": "fit", "rows": rows, "weighting": weighting, "cw": cw, "perms": perms,
                 "hists": make_histories(rng, rows, weighting, cw),
                 "tables": rng.sample(TABLE_FORMS, 2) + [rng.choice(TABLE_INT_FORMS)]}
@@ -1085,7 +1097,7 @@ class C06(Prop):
         if rng.random() < 0.04:  # an image rather than a handful of pixels
             shape = rng.choice([[40, 50], [1500], [8, 16, 12]])
         size = int(np.prod(shape)) if shape else 1
-        layout = rng.choice(LAYOUTS if shape else ["c", "scalar", "scalar", "strided", "field", "readonly", "offset"])
+        layout = rng.choice(LAYOUTS if shape else ["c", "scalar", "scalar", "pyscalar", "strided", "field", "readonly", "offset"])
         kind = rng.choice(["line", "line", "line-f64", "identity", "fitted", "fitted", "few", "near", "counts-fit"])
         top = float(np.iinfo(dt).max) if dt.kind in "iu" else 10.0 ** rng.uniform(2, 9)
         case = {"kind": "calibrate", "mode": "line", "shape": shape, "dtype": dtype, "layout": layout}
@@ -1175,7 +1187,7 @@ class C06(Prop):
             dt = parse_dtype(dtype)
             top = float(np.iinfo(dt).max) if dt.kind in "iu" else 10.0 ** rng.uniform(2, 9)
             return {"kind": "session", "shape": shape, "dtype": dtype, "start": start, "steps": steps,
-                    "layout": rng.choice(LAYOUTS if shape else ["c", "scalar", "strided", "field", "offset"]),
+                    "layout": rng.choice(LAYOUTS if shape else ["c", "scalar", "pyscalar", "strided", "field", "offset"]),
                     "data": self.gen_data(rng, dtype, size, [1.0, 10.0, 100.0], 0.5, top)}
         return {"kind": "session", "shape": shape, "conc": gen_conc(rng, size, scale), "start": start, "steps": steps}
 
@@ -1299,7 +1311,7 @@ class C06(Prop):
                     else:
                         yield {**c, "mode": "line", "g": 40.0, "c": 12.0, "ptype": mode}
                 yield {"kind": "calibrate", "mode": "line", "g": 40.0, "c": 12.0, "shape": [], "dtype": order + base,
-                       "layout": ["c", "scalar", "strided", "field"][k % 4], "data": counts[1:2]}
+                       "layout": ["c", "scalar", "strided", "field", "pyscalar"][k % 5], "data": counts[1:2]}
         # sessions on one object
         few = {"op": "refit", "rows": [[1.0, 2.0], [2.0, None]], "weighting": "1/x", "cw": None}
         fit = {"op": "refit", "rows": base, "weighting": "1/x", "cw": None}
